@@ -30,7 +30,9 @@ RULE = ("exhaustive: every tree with <=3 (quick) / <=4 (thorough) nodes below a 
         "constructor configurations) generated from a grammar incl. script/style/template/ruby, comments, CDATA, "
         "doctype, declarations, PIs and malformed markup; seeded random edit histories (quick 400 x 12 steps, "
         "thorough 3000 x 20) with strings of all 15 classes and tags with custom interesting_string_types, queried "
-        "after every step; written documents with generator ground truth (class and text of every string; the CDATA "
+        "after every step; deep only-child chains (depths 100, 999, 1000, 1001, 3000; parsed and assembled through the "
+        "API; strings of several classes at several levels) with .string / get_text / .strings / .stripped_strings at levels "
+        "around the ends, the middle and 999..1001 above the leaf; written documents with generator ground truth (class and text of every string; the CDATA "
         "keyword in all 32 letter-case spellings); the text generators consumed step by step while the consumer replaces / "
         "extracts / wraps the string just handed out (every exhaustive tree's root, random elements of parsed and edited "
         "trees) against the list taken before the loop. Non-trivial: the element has >=1 string beneath it. Distinct by (recipe, history, query).")
@@ -196,11 +198,77 @@ def make_world(recipe):
             w.parsed = True
         elif kind == "nested":
             root = make_node(w, recipe["tree"], None)
+        elif kind == "chain":
+            make_chain(w, recipe)
         else:
             raise ValueError(kind)
     for op in recipe.get("ops", []):
         apply_op(w, op)
     return w
+
+
+def chain_markup(recipe):
+    """<i> nested `depth` times around a leaf string, with further strings (text 0 / CDATA 1 / comment 4) as children of
+    the chain element at the given levels (level 0 = the document), before or after the next chain element."""
+    d = recipe["depth"]
+    form = {0: "%s", 1: "<![CDATA[%s]]>", 4: "<!--%s-->"}
+    at = {}
+    for lvl, cls, text, where in recipe.get("extras", []):
+        at.setdefault((lvl, where), []).append(form[cls] % text)
+    parts = []
+    for k in range(d):
+        parts.extend(at.get((k, "before"), []))
+        parts.append("<i>")
+    parts.extend(at.get((d, "before"), []))
+    if recipe.get("leaf") is not None:
+        parts.append(form[recipe["leaf"][0]] % recipe["leaf"][1])
+    parts.extend(at.get((d, "after"), []))
+    for k in range(d - 1, -1, -1):
+        parts.append("</i>")
+        parts.extend(at.get((k, "after"), []))
+    return "".join(parts)
+
+
+def make_chain(w, recipe):
+    """A deep only-child chain, parsed by html.parser or assembled through the API (no recursion in the harness)."""
+    if recipe["via"] == "parse":
+        soup = BeautifulSoup(chain_markup(recipe), "html.parser")
+        w.soup = soup
+        w.containers = dict(DOC_CONTAINERS)
+        w.reg_tree(soup, w.containers)
+        w.parsed = True
+        return
+    at = {}
+    for lvl, cls, text, where in recipe.get("extras", []):
+        at.setdefault((lvl, where), []).append((cls, text))
+    root = BeautifulSoup("", "html.parser") if recipe.get("root", "soup") == "soup" else Tag(name="div")
+    w.reg(root)
+    if isinstance(root, BeautifulSoup):
+        w.soup = root
+        w.containers = dict(DOC_CONTAINERS)
+    cur = root
+    d = recipe["depth"]
+    for k in range(d + 1):
+        for cls, text in at.get((k, "before"), []):
+            o = ALLC[cls](text); w.reg(o); cur.append(o)
+        if k < d:
+            t = Tag(name="i"); w.reg(t); cur.append(t)
+        elif recipe.get("leaf") is not None:
+            o = ALLC[recipe["leaf"][0]](recipe["leaf"][1]); w.reg(o); cur.append(o)
+        for cls, text in at.get((k, "after"), []):
+            o = ALLC[cls](text); w.reg(o); cur.append(o)
+        if k < d:
+            cur = t
+
+
+def chain_levels(w):
+    """The chain elements, outermost first (level 0 = the root), found by walking down the last tag child."""
+    out = [w.forest.objs[0]]
+    while True:
+        nxt = [c for c in out[-1].contents if isinstance(c, Tag)]
+        if not nxt:
+            return out
+        out.append(nxt[-1])
 
 
 def make_node(w, spec, parent):
@@ -588,8 +656,10 @@ class Batch:
         self.ctx = ctx
         self.items = []
 
-    def add(self, recipe, w, queries):
-        """queries: list of (element id, strip, types form, separator)."""
+    def add(self, recipe, w, queries, string_elements=None, to_model=True):
+        """queries: list of (element id, strip, types form, separator). string_elements: the elements whose .string is
+        checked (default: every live one). to_model=False: oracle only (heaps too deep for the extracted model's unary
+        arithmetic within the time budget)."""
         ctx = self.ctx
         f = w.forest
         impl = []
@@ -650,7 +720,7 @@ class Batch:
         # .string of every live element
         strings = []
         for i, o in enumerate(f.objs):
-            if f.dead(o):
+            if f.dead(o) or (string_elements is not None and i not in string_elements):
                 strings.append(None)
                 continue
             try:
@@ -666,7 +736,8 @@ class Batch:
                 ctx.fail({"recipe": recipe, "query": {"element": i, "view": "string"}},
                          ".string is not the sole string at the end of a chain of only children", sid, eid)
             strings.append([0] if sid is None else [1, sid])
-        self.items.append((recipe, None, f.dump(), enc_payload(w), mq, impl, strings))
+        if to_model:
+            self.items.append((recipe, None, f.dump(), enc_payload(w), mq, impl, strings))
 
     def flush(self):
         ctx = self.ctx
@@ -1381,6 +1452,63 @@ def run_histories(ctx):
     batch.flush()
 
 
+CHAIN_DEPTHS = [100, 999, 1000, 1001, 3000]
+
+
+def chain_recipes(rng, thorough):
+    out = []
+    depths = CHAIN_DEPTHS + ([1002, 2000, 5000] if thorough else [])
+    for d in depths:
+        for via in ("parse", "api"):
+            if via == "api" and d > 1100 and not thorough:
+                continue              # assembling through append() is quadratic in the depth
+            # the pure only-child chain, then chains with strings at several levels
+            out.append({"kind": "chain", "via": via, "depth": d, "leaf": [0, " leaf "], "extras": []})
+            lv = sorted({0, 1, d // 3, d // 2, d - 2, d - 1, d} & set(range(d + 1)))
+            pick = rng.sample(lv, min(len(lv), 4))
+            ex = []
+            for l in sorted(pick):
+                cls = rng.choice([0, 0, 1, 4]) if via == "parse" else rng.choice([0, 1, 4, 8, 12])
+                ex.append([l, cls, rng.choice(["t%d" % l, " u%d " % l, "v %d" % l]), rng.choice(["before", "after"])])
+            out.append({"kind": "chain", "via": via, "depth": d, "leaf": [rng.choice([0, 1, 4]), "L"], "extras": ex})
+            out.append({"kind": "chain", "via": via, "depth": d, "leaf": None, "extras": [[d // 2, 0, "mid", "after"]]})
+    return out
+
+
+def run_deep(ctx):
+    """Deep only-child chains (depths around and beyond the interpreter's recursion limit): .string, get_text, .strings,
+    .stripped_strings at chosen levels against the (iterative) independent evaluator; the shallow ones also go to the model."""
+    rng = ctx.rng
+    forms = types_forms()
+    pick_forms = [forms[0], forms[2], forms[6], forms[4]]
+    batch = Batch(ctx)
+    for recipe in chain_recipes(rng, ctx.thorough):
+        w = make_world(recipe)
+        f = w.forest
+        chain = chain_levels(w)
+        d = len(chain) - 1
+        want = sorted({0, 1, 2, d // 3, d // 2, d - 1001, d - 1000, d - 999, d - 2, d - 1, d} & set(range(d + 1)))
+        for lvl, _, _, _ in recipe.get("extras", []):
+            want = sorted(set(want) | ({lvl - 1, lvl, lvl + 1} & set(range(d + 1))))
+        elems = [f.oid(chain[k]) for k in want]
+        elems += [i for i in w.live() if not isinstance(f.objs[i], Tag)][:8]
+        qs = []
+        for x in elems:
+            for strip in (False, True):
+                for form in pick_forms:
+                    qs.append((x, strip, form, "|" if strip else ""))
+        if w.parsed:
+            check_shallow = len(f.objs) <= 400
+            if check_shallow:
+                check_parsed_classes(ctx, recipe, w)
+        batch.add(recipe, w, qs, string_elements=set(elems), to_model=len(f.objs) <= 160)
+        ctx.count("deep_chains")
+        if too_many(ctx):
+            break
+    batch.flush()
+    ctx.sample({"recipe": recipe})
+
+
 CORPUS = [
     # regression witnesses and shapes that once mattered
     {"kind": "nested", "tree": ["tag", 0, "div", [], [["str", 0, ""], ["str", 0, "  "], ["tag", 0, "b", [], [["str", 4, "c"]]], ["str", 1, " d "]]]},
@@ -1422,6 +1550,8 @@ def run(ctx):
     strip_sweep(ctx)
     config_grid(ctx)
     run_exhaustive(ctx)
+    if not too_many(ctx):
+        run_deep(ctx)
     if not too_many(ctx):
         run_parsed(ctx)
     if not too_many(ctx):
@@ -1478,8 +1608,11 @@ def replay(ctx, data):
     c.build = type("B", (), {"model_ok": False})()
     w = make_world(recipe)
     print("recipe:", json.dumps(recipe)[:3000])
-    for root in w.forest.roots():
-        print("tree:", T.impl_shape(root))
+    if len(w.forest.objs) <= 200:
+        for root in w.forest.roots():
+            print("tree:", T.impl_shape(root))
+    else:
+        print("tree: %d elements (not printed)" % len(w.forest.objs))
     if w.parsed:
         check_parsed_classes(c, recipe, w)
         if "truth" in recipe:
@@ -1489,13 +1622,18 @@ def replay(ctx, data):
         print("consumed step by step:", json.dumps(f["interleave"]))
         run_interleaved(c, recipe, f["interleave"], forms)
     q = f.get("query")
+    only = None
     if q and "strip" in q:
         form = [fm for fm in forms if fm[2] == q["types"]]
         qs = [(q["element"], q["strip"], form[0], q["separator"])] if form else all_queries(w, forms, ["", "|"], [q["element"]])
+        only = {q["element"]}
+    elif q and "element" in q:
+        qs = all_queries(w, forms, ["", "|"], [q["element"]])
+        only = {q["element"]}
     else:
-        qs = all_queries(w, forms, ["", "|"])
+        qs = all_queries(w, forms, ["", "|"]) if len(w.forest.objs) <= 200 else []
     b = Batch(c)
-    b.add(recipe, w, qs)
+    b.add(recipe, w, qs, string_elements=only, to_model=False)
     for x in c.failures[:5]:
         print("FAIL:", x["what"])
         print("  query   :", x["case"].get("query") or x["case"].get("interleave") or {k: v for k, v in x["case"].items() if k != "recipe"})
